@@ -2,7 +2,7 @@
    implementation responses.  Mismatch tags: "S:" = an observable the property itself
    determines (status class, S3 code, body, ETag, listing contents) — a spec failure;
    "M:" = an ancillary observable only the model fixes (header presence etc.). *)
-From GF Require Import Base.Lit Base.Int64 Model.Mem Model.Handlers Model.Uploader Model.Chunk Model.MemVersions Model.PutPath Extract.Checks.
+From GF Require Import Base.Lit Base.Int64 Model.Mem Model.Handlers Model.Uploader Model.Chunk Model.MemVersions Model.PutPath Model.MemWalk Model.CrashDirs Model.FsList Extract.Checks.
 Open Scope string_scope.
 Open Scope list_scope.
 Open Scope Z_scope.
@@ -198,13 +198,37 @@ Definition obj_step (md5 : list N -> list N) (c : config) (hs : hstate) (o : hop
   | RMulti ks => (mk t, exp_ok ob ++ expect (list_eqb ks (ob_names ob)) "M:deleted-list")
   | RCopy body => (mk t, exp_ok ob ++ expect (beq (ob_etag ob) (etag_of md5 body)) "S:copy-etag")
   | RList lr =>
+      (* the filesystem backends list by their own algorithm (one ReadDir, or a Walk that is sorted
+         afterwards): Model/FsList.v run on the directory tree of the live keys predicts their answer,
+         the order of the common prefixes (directory-name order) included *)
+      let fs_ms :=
+        match o with
+        | HList b pre d _ false _ _ =>
+            if hs_fs hs && negb (lr_truncated lr) && (ob_status ob =? 200) then
+              match get_bucket s' b with
+              | Some bk =>
+                  let keys := live_keys (b_objs bk) in
+                  let pre_ok := match d, pre with Some dl, c :: _ => negb (N.eqb c dl) | _, _ => true end in
+                  if fs_storable keys && pre_ok then
+                    match fs_list (tree_of keys) pre d with
+                    | Some (cs, ps) =>
+                        expect (list_eqb cs (map fst (ob_contents ob))) "M:fs-listing-model-contents" ++
+                        expect (list_eqb ps (ob_names ob)) "M:fs-listing-model-common-prefixes-in-directory-order"
+                    | None => [B "M:fs-listing-model-readdir-error"]
+                    end
+                  else []
+              | None => []
+              end
+            else []
+        | _ => []
+        end in
       let v2 := match o with HList _ _ _ _ _ _ v2 => v2 | _ => false end in
       let has_delim := match o with HList _ _ (Some _) _ _ _ _ => true | _ => false end in
       (mk t, exp_ok ob ++
          expect (contents_eqb md5 (lr_contents lr) (ob_contents ob)) "S:list-contents" ++
          expect (same_set (lr_prefixes lr) (ob_names ob)) "S:list-common-prefixes" ++
          expect (Bool.eqb (lr_truncated lr) (ob_truncated ob)) "M:is-truncated" ++
-         (if v2 || has_delim then expect (beq (lr_next lr) (ob_next ob)) "M:next-marker" else []))
+         (if v2 || has_delim then expect (beq (lr_next lr) (ob_next ob)) "M:next-marker" else []) ++ fs_ms)
   end.
 
 (* ---- C04 walk oracle: purely over observations --------------------------------- *)
@@ -384,7 +408,6 @@ Definition versions_step (md5 : list N -> list N) (c : config) (hs : hstate) (o 
           let vmo := match vm with [] => None | _ => Some (match tbl_id (hs_tbl hs) vm with Some i => i | None => 0%N end) end in
           match list_versions s1 b pre d km vmo maxkeys with
           | VLNoBucket => (with_model hs s1, exp_err ENoSuchBucket ob false)
-          | VLInternal => (with_model hs s1, exp_err EInternal ob false)
           | VLOk r show =>
               let '(t', ms) := ventries_check md5 show (hs_tbl hs) (vl_entries r) (ob_contents ob) (ob_versions ob) in
               ({| hs_model := s1; hs_tbl := t'; hs_up := hs_up hs; hs_utbl := hs_utbl hs; hs_fs := hs_fs hs |},
